@@ -218,6 +218,9 @@ type initScenario struct {
 	// transport's deadline methods, so that reads go on succeeding afterwards.
 	CancelAt   int  `json:"cancel_at,omitempty"`
 	NoDeadline bool `json:"no_deadline,omitempty"`
+	// SASLExtra: another element in the SASL namespace in the features list,
+	// "after", "before" or on "both" sides of <mechanisms/>.
+	SASLExtra string `json:"sasl_extra,omitempty"`
 
 	// filled in by the run
 	Log      []entry `json:"delivered,omitempty"`
@@ -311,6 +314,16 @@ func (a *initAdv) feed(delta []byte, idle bool) (reply []byte, eof bool) {
 			a.headers++
 			if a.headers == 1 {
 				f := featuresXML(a.sc.Advertised)
+				extra := "<channel-binding-types xmlns='" + nsSASL + "'><type>tls-exporter</type></channel-binding-types>"
+				mech := "<mechanisms"
+				switch a.sc.SASLExtra {
+				case "after":
+					f = strings.Replace(f, "</mechanisms>", "</mechanisms>"+extra, 1)
+				case "before":
+					f = strings.Replace(f, mech, extra+mech, 1)
+				case "both":
+					f = strings.Replace(strings.Replace(f, mech, extra+mech, 1), "</mechanisms>", "</mechanisms>"+extra, 1)
+				}
 				if a.hold != nil {
 					f = strings.TrimSuffix(f, "</stream:features>")
 					a.holdOpen = true
@@ -569,6 +582,16 @@ func genInit(r *rand.Rand) *initScenario {
 			}
 		}
 	}
+	// a second element in the SASL namespace next to <mechanisms/>
+	if r.Intn(5) == 0 {
+		sc.SASLExtra = []string{"after", "after", "before", "both"}[r.Intn(4)]
+		if r.Intn(2) == 0 && !sc.TLS {
+			// the client's first choice is not on offer
+			p := r.Perm(3)
+			sc.ClientMechs = []string{saslpeer.Names[p[0]], saslpeer.Names[p[1]]}
+			sc.Advertised = []string{saslpeer.Names[p[1]]}
+		}
+	}
 	// cancellation at a step boundary (lock-step transport only)
 	if !sc.TLS && r.Intn(6) == 0 {
 		sc.CancelAt = 1 + r.Intn(3)
@@ -793,6 +816,12 @@ func negotiatorFor(f xmpp.StreamFeature) xmpp.Negotiator {
 func runInitiator(c *core.Case, sc *initScenario) {
 	c.Sample(sc)
 	c.Count("init_cases", 1)
+	if sc.SASLExtra != "" {
+		c.Count("init_features_sasl_extra_"+sc.SASLExtra, 1)
+		if len(sc.ClientMechs) > 0 && !contains(sc.Advertised, sc.ClientMechs[0]) {
+			c.Count("init_features_sasl_extra_first_choice_not_offered", 1)
+		}
+	}
 	adv := &initAdv{sc: sc, r: c.Rand}
 	var mechs []sasl.Mechanism
 	for _, n := range sc.ClientMechs {
@@ -1588,6 +1617,8 @@ func Prop() *core.Prop {
 		"init_channel_binding_matched", "recv_accept_PLAIN", "recv_perm_true", "recv_perm_false",
 		"init_cancel_cases_no_deadline_transport", "init_cancel_cases_deadline_transport", "init_cancel_fired",
 		"init_cancel_fired_multi_step_mechanism",
+		"init_features_sasl_extra_after", "init_features_sasl_extra_before", "init_features_sasl_extra_both",
+		"init_features_sasl_extra_first_choice_not_offered",
 		"overlap_pairs_with_different_offers", "overlap_a_held_after_parse", "overlap_b_sent_auth_while_a_held",
 	}
 	for _, k := range initAlphabet {
